@@ -577,6 +577,7 @@ func C19(r *vf.Run) {
 					e := asm.NewEmitter(buf[:capacity:capacity], listing)
 					sh := newShadow(listing)
 					before0 := r.Violations()
+					labelOperandAt := map[int]bool{} // buffer offsets of operand bytes of accepted label-taking calls
 					r.Eval(1)
 					for i, c := range calls {
 						legal := sh.legal(c)
@@ -596,6 +597,11 @@ func C19(r *vf.Run) {
 							if pan != nil {
 								r.Fail("fitting-call-refused", fmt.Sprintf("capacity %d: call #%d %s (size %d, Len %d) fits but was refused: %v", capacity, i, c, c.size(), len(sh.code), pan), hs())
 								break
+							}
+							if c.Op == "ins" && (c.M.Arg == aLabel8 || c.M.Arg == aLabel16) {
+								for k := 1; k < c.size(); k++ {
+									labelOperandAt[len(sh.code)+k] = true
+								}
 							}
 							sh.apply(c)
 							if e.Len() != len(sh.code) || e.PC() != sh.addr {
@@ -641,6 +647,22 @@ func C19(r *vf.Run) {
 					}
 					// "refused as a whole": what the emitter goes on to do must be what it would do had the
 					// refused calls never been made - resolve the references of the accepted calls, no others
+					if !failedHere(r, before0) && rebase && len(labelOperandAt) == 0 {
+						// with several bases label resolution is not specified; but when no label-taking method
+						// was called at all there is nothing to resolve and Finalize has no byte to touch
+						pre := append([]byte(nil), e.Bytes()...)
+						pan := vf.Try(func() { _ = e.Finalize() })
+						post := e.Bytes()
+						if pan == nil && len(post) == len(pre) {
+							for i := range pre {
+								if pre[i] != post[i] && !labelOperandAt[i] {
+									r.Fail("finalize-touches-byte-without-references", fmt.Sprintf("capacity %d: no label-taking method was called, yet Finalize changed byte %d (%02x -> %02x)", capacity, i, pre[i], post[i]), hs())
+									break
+								}
+							}
+							cells["finalize-after-rebase"]++
+						}
+					}
 					if !failedHere(r, before0) && !rebase { // (label resolution is specified for one base only)
 						fe := sh.expectFinalize()
 						var ferr error
